@@ -159,6 +159,19 @@ class CellCtx:
             script, _, _ = ob.script(with_axioms=True)
             self.samples.append({"obligation": name, "cfg": _jsonable(self.cfg), "result": res.status,
                                  "smt2_head": script[:1200]})
+        if res.status == "unsat" and self.tier == "thorough" and not canary:
+            # seeded sample of the discharged scripts is re-decided by /usr/bin/z3 4.8.12 and the cvc5 1.0.3 binary
+            hh = int(hashlib.sha1((name + json.dumps(_jsonable(self.cfg), sort_keys=True)).encode()).hexdigest(), 16)
+            if hh % 25 == int(os.environ.get("VERIF_SEED", "0")) % 25:
+                try:
+                    ans, logic = smt.crosscheck(ob, "unsat", timeout_s=30, with_axioms=(res.detail != "abstract"))
+                except Exception as e:  # noqa: BLE001
+                    ans, logic = {"crosscheck": f"error: {e!r}"}, "?"
+                rec["crosscheck"] = {"logic": logic, **ans}
+                if any(v == "sat" or str(v).startswith("error") for v in ans.values()):
+                    rec["status"] = "unknown"
+                    rec["detail"] = f"solver disagreement: z3-5.1 unsat vs {ans}"
+                    res.status = "unknown"
         if res.status == "sat":
             vals = {k: float(v) for k, v in res.var_values().items()}
             bvals = {k: bool(v) for k, v in res.bvalues.items()}
@@ -357,6 +370,7 @@ def finish(prop, mod, args, seed, cells, results, t0):
     samples = []
     interp_tot = {}
     solver_tot = {}
+    cross = {}
     validated = 0
     notes = []
     if os.environ.get("VERIF_TIMES"):
@@ -376,6 +390,11 @@ def finish(prop, mod, args, seed, cells, results, t0):
         for k, v in r["solver"].items():
             solver_tot[k] = solver_tot.get(k, 0) + v
         for rec in r["records"]:
+            if rec.get("crosscheck"):
+                cross["scripts"] = cross.get("scripts", 0) + 1
+                for k_, v_ in rec["crosscheck"].items():
+                    if k_ != "logic":
+                        cross[f"{k_}:{str(v_)[:12]}"] = cross.get(f"{k_}:{str(v_)[:12]}", 0) + 1
             if rec.get("canary"):
                 n_can += 1
                 if rec["status"] == "sat" and rec.get("reproduced") in (True, None):
@@ -449,6 +468,7 @@ def finish(prop, mod, args, seed, cells, results, t0):
             "structural_facts": n_struct, "structural_facts_ok": n_struct_ok,
             "canaries": n_can, "canaries_refuted": n_can_ok,
             "known_findings_hit": {k: h["n"] for k, h in known_hits.items()},
+            "crosschecked_with_other_solvers": cross,
             "traces_validated_against_impl": validated,
             "checker_cmd": f"./vcheck {prop} --tier {args.tier}",
             "trusted_base": ["jax tracer (make_jaxpr) and the real primitives used for concrete / element-id evaluation",
